@@ -192,6 +192,9 @@ def make_font(tape, idx):
     kind = t.pick(["type1", "type1", "type3", "type0"], "font.kind")
     name = b"VerifFont%d" % idx
     if kind == "type1":
+        if t.coin(15, 100, "font.tagged"):
+            # a subset of a standard-14 face: the tagged name is not a standard-14 name, the font's own /Widths count
+            name = t.pick([b"ABCDEF+Helvetica", b"QWERTY+Times-Roman", b"XYZABC+Courier-Bold", b"Helvetica-Narrowx"], "font.taggedname")
         first = t.pick([32, 65, 0], "font.first")
         last = t.pick([127, 127, 255, 255, first + 9], "font.last")
         n = last + 1 - first
@@ -202,6 +205,11 @@ def make_font(tape, idx):
         obj = {b"Type": Name(b"Font"), b"Subtype": Name(t.pick([b"Type1", b"TrueType", b"MMType1"], "font.subtype")), b"BaseFont": Name(name), b"FirstChar": first, b"LastChar": last, b"Widths": [int(widths[first + i]) for i in range(n)], b"FontDescriptor": fd}
         f = Font("type1", name.decode(), widths, first, descent, missing, obj=obj)
         f.last = last
+        f.textmap = {}
+        if t.coin(15, 100, "font.remapspace"):
+            # the space glyph sits at another code and code 32 shows a letter: word spacing still goes by the code (32)
+            obj[b"Encoding"] = {b"Type": Name(b"Encoding"), b"Differences": [32, Name(b"A"), 65, Name(b"space")]}
+            f.textmap = {32: "A", 65: " "}
         return f
     if kind == "type3":
         k = t.pick([512, 1024, 256], "font.t3scale")
@@ -397,7 +405,7 @@ class Machine:
                 xs = [c[0] for c in corners]
                 ys = [c[1] for c in corners]
                 bbox = (min(xs), min(ys), max(xs), max(ys))
-                self.events.append(("glyph", {"matrix": m, "adv": adv, "bbox": bbox, "size": bbox[3] - bbox[1], "fontname": font.fontname, "ncolor": g.ncolor, "code": code, "kind": font.kind}))
+                self.events.append(("glyph", {"matrix": m, "adv": adv, "bbox": bbox, "size": bbox[3] - bbox[1], "fontname": font.fontname, "ncolor": g.ncolor, "code": code, "kind": font.kind, "text": getattr(font, "textmap", {}).get(code)}))
                 pen += adv + g.Tc * g.Th
                 if font.bpc == 1 and code == 32:
                     pen += g.Tw * g.Th
